@@ -256,3 +256,5 @@ package nfa
 //@   ensures forall k :: 0 <= k && k < len(result) ==> 0 <= result[k][0] && result[k][0] <= result[k][1] && result[k][1] <= len(haystack)
 //@   ensures forall k :: 0 <= k && k + 1 < len(result) ==> result[k][1] <= result[k+1][0] && result[k][0] < result[k+1][0]
 //@   ensures (base(result) == base(results) && results != nil) || fresh(result)
+//@   ensures forall j :: j < 0 && 0 <= off(results) + j ==> results[j] == old(results[j])
+//@   ensures base(result) == base(results) ==> off(result) == off(results)
